@@ -92,6 +92,11 @@ type Exec struct {
 	notes map[string]bool // assumption notes collected during run
 	opaque map[string]bool // functions to treat as opaque pure UFs
 
+	lemmaByName map[string]*Contract
+	usedLemmas  map[string]bool
+	splitGoals  bool
+	trigQuadrants bool
+	schemaCtr   int
 	freshBase   map[string]int
 	entryState  *State
 	curSkolems  map[string]Value
@@ -776,7 +781,32 @@ func (x *Exec) doCall(st *State, fr *Frame, c *ssa.CallCommon) []Out {
 	}
 }
 
+func (x *Exec) recordEvalPoint(st *State, method string, args []Value) {
+	if method != "Evaluate" || len(args) == 0 {
+		return
+	}
+	var flat []*Term
+	if !flatten(args[len(args)-1], &flat) || len(flat) < 2 || len(flat) > 3 {
+		return
+	}
+	for _, ap := range st.apps {
+		if ap.fn == "evalpt" && len(ap.args) == len(flat) {
+			same := true
+			for i := range flat {
+				if ap.args[i] != flat[i] {
+					same = false
+				}
+			}
+			if same {
+				return
+			}
+		}
+	}
+	st.apps = append(st.apps, appRec{fn: "evalpt", args: flat, res: tTrue})
+}
+
 func (x *Exec) invoke(st *State, recv Value, m *types.Func, args []Value, depth int) []Out {
+	x.recordEvalPoint(st, m.Name(), args)
 	switch r := recv.(type) {
 	case *AbsObj:
 		return x.absObjCall(st, r, m.Name(), args)
